@@ -1,0 +1,8 @@
+//go:build verif
+
+package cloudwatch
+
+// VerifSetAPIC17 replaces the CloudWatch API client of a backend built by NewClientFromViper.
+func VerifSetAPIC17(client *Client, api CloudwatchClient) {
+	client.cloudwatch = api
+}
